@@ -20,10 +20,10 @@ def run(ctx):
     d = ctx.body('db::Db::drop_inner')
     if d:
         sh = d.call_sites('db::DbInner::shutdown')
-        joins = d.call_sites('re:JoinHandle.*::join$')
+        joins = lib.sites_reaching(d, ['re:JoinHandle.*::join$'])        # directly or through a join helper
         kl = d.call_sites('db::DbInner::kill_logs')
         un = d.call_sites('fs2::FileExt::unlock', 'std::fs::File::unlock')
-        ctx.ob('1b drop_inner-anchors', 'anchor', d.path, 'drop_inner: 1 shutdown, 4 joins, 1 kill_logs', len(sh) == 1 and len(joins) == 4 and len(kl) == 1, '%s %s %s' % (sh, joins, kl))
+        ctx.ob('1b drop_inner-anchors', 'anchor', d.path, 'drop_inner: shutdown, worker joins, kill_logs', len(sh) >= 1 and len(joins) >= 1 and len(kl) == 1, '%s %s %s' % (sh, joins, kl))
         for j in joins:
             lib.precedes(ctx, '1c shutdown-before-join', d, sh, [j], 'shutdown is requested before any worker is joined (else join blocks forever)')
         lib.must_pass(ctx, '1d kill_logs-always-runs', d, kl, 'every path through drop_inner runs the final drain (kill_logs)', cut_errors=False)
@@ -37,7 +37,8 @@ def run(ctx):
         # each thread handle is taken from its field and joined: 4 distinct fields
         flds = set()
         for j in joins:
-            flds |= set(f for f in lib.receiver_fields(d, d.term(j), 0) if f.startswith('.Db.'))
+            for ai in range(len(d.term(j)['a'])):
+                flds |= set(f for f in lib.receiver_fields(d, d.term(j), ai) if f.startswith('.Db.'))
         ctx.ob('1f all-four-threads-joined', 'K9-agreement', d.path, 'the four join calls take their handles from the four thread fields of Db',
                flds >= {'.Db.log_thread', '.Db.flush_thread', '.Db.commit_thread', '.Db.cleanup_thread'}, str(sorted(flds)))
     k = ctx.body('db::DbInner::kill_logs')
